@@ -38,8 +38,9 @@ size_t varintRLESize(const uint64_t *values, size_t count);
 
 /* Maximum possible encoded size (worst case: all unique values) */
 static inline size_t varintRLEMaxSize(size_t count) {
-    /* Worst case: every value unique = count * (1 byte run + 9 bytes value) */
-    return count * 10;
+    /* Worst case: every value unique = count * (1 byte run + 9 bytes value),
+     * plus the total-count varint written by varintRLEEncodeWithHeader() */
+    return count * 10 + 9;
 }
 
 /* Encode array using Run-Length Encoding
